@@ -34,6 +34,8 @@ type txSpec struct {
 	attr bool
 	// scope of a signer (absent = Global); ordinary transactions only
 	scope map[util.Uint160]sigScope
+	// reentrant: the transaction of the class "re-entrant receiver"
+	reentrant bool
 	// emptied: class of the "voting account emptied" addition ("one", "several", "+back"), "" = none
 	emptied string
 	// exhaust: 1 = SystemFee chosen so that SystemFee+NetworkFee equals the payer's deposit exactly,
@@ -401,6 +403,18 @@ func (w *world) runBlock(o *hx.Out, k int, specs []*txSpec) bool {
 			obs = strings.Join(parts, " ")
 			all = append(all, w.transfers(ra[0].Events, bad)...)
 			o.Count("tx:HALT")
+			if s.reentrant {
+				o.Count("class:reentrant-vote-reward-tx")
+				n := 0
+				for _, x := range w.transfers(ra[0].Events, bad) {
+					if x.neo {
+						n++
+					}
+				}
+				if n > 0 {
+					o.Count("class:reentrant-callback-ran")
+				}
+			}
 			if s.emptied != "" {
 				o.Count("class:voter-emptied-" + s.emptied)
 			}
